@@ -897,33 +897,33 @@ def decide(cond) -> bool:
     if not can_t:
         return False
     i = len(c.taken)
-    choice = c.prefix[i] if i < len(c.prefix) else True
-    c.taken.append(choice)
+    k = c.prefix[i] if i < len(c.prefix) else 0
+    c.taken.append((k, 2))
+    choice = k == 0
     c.pc.append(cond if choice else z3.Not(cond))
     return choice
 
 
 def choose(n, label="ch"):
-    """Solver-mediated nondeterministic choice in range(n) (used to make histories / orders symbolic)."""
+    """Nondeterministic choice in range(n): every alternative is feasible by construction (an unconstrained fresh
+    integer), so the explorer enumerates the alternatives without asking the solver."""
     c = CTX
     if n <= 1:
         return 0
-    k = z3.Int(c.fresh_name(label))
-    c.assumptions.append(z3.And(k >= 0, k < n))
-    for i in range(n - 1):
-        if decide(k == i):
-            return i
-    return n - 1
+    i = len(c.taken)
+    k = c.prefix[i] if i < len(c.prefix) else 0
+    c.taken.append((k, n))
+    return k
 
 
 def assume(cond):
     CTX.assumptions.append(cond)
 
 
-def explore(fn, mode="R", max_paths=100000, setup=None):
+def explore(fn, mode="R", max_paths=1000000, setup=None, prefix0=()):
     """DFS over all feasible paths of fn() by re-execution with decision prefixes.
-    Yields (context, result-or-exception)."""
-    stack = [[]]
+    Yields (context, result-or-exception). `prefix0` fixes the first decisions (used to split work across processes)."""
+    stack = [list(prefix0)]
     n = 0
     while stack:
         prefix = stack.pop()
@@ -940,7 +940,9 @@ def explore(fn, mode="R", max_paths=100000, setup=None):
             res = e
         taken = c.taken
         for i in range(len(prefix), len(taken)):
-            stack.append(taken[:i] + [not taken[i]])
+            k, arity = taken[i]
+            for alt in range(arity - 1, k, -1):
+                stack.append([t[0] for t in taken[:i]] + [alt])
         n += 1
         yield c, res
         if n >= max_paths:
